@@ -1,5 +1,6 @@
 """Container format rules: BYTE-CONTRA, STREAM-RESET (C12), GUARD-COMPARE (C04), TABLE-INVERSE (C02),
 SPEC-CONST (C03)."""
+from collections import deque
 from lzlint.framework import rule
 from lzlint.core import (Prov, Callee, callee_of, strip_generics, last_seg, expr_walk, expr_str, op_local, op_place,
                          const_val, guards_of, norm_cmp, switch_edges, self_field_of, reachable_without_edge)
@@ -1523,3 +1524,104 @@ def validate_parity_lclp(ctx):
     else:
         ctx.violation(key, reader[0].loc(reader[1]), 'the reader rejects lc + lp > 4 (%s) but no LZMA2/XZ writer or option setter checks the sum: '
                       'lc = 3, lp = 2 (each inside its own range) is written successfully and cannot be decoded' % reader[0].key)
+
+
+# --------------------------------------------------------------------------- MAGIC-PREFIX
+
+def _stable_cond(e):
+    """True if a branch condition can be equated with a textually equal one elsewhere in the function:
+    it reads no memory local directly (results of calls are values of their call site)."""
+    def walk(x):
+        if not isinstance(x, tuple):
+            return True
+        if x[0] == 'call':
+            # the result of one call site: a single value as long as the site is not re-executed
+            # (the caller only equates switches outside loops)
+            return True
+        if x[0] == 'local':
+            return False
+        for y in x[1:]:
+            if isinstance(y, tuple) and not walk(y):
+                return False
+            if isinstance(y, list) and not all(walk(z) for z in y):
+                return False
+        return True
+    return walk(e)
+
+
+def _correlated_reach(f, prov, stop):
+    """Blocks reachable from the entry without entering a `stop` block, where two boolean switches on
+    the same (stable) condition are taken the same way on one path."""
+    conds = {}
+    in_loop = set()
+    for body in f.loops().values():
+        in_loop |= body
+    for b in f.reachable:
+        t = f.blocks[b]['term']
+        if t['k'] != 'switch' or b in in_loop:
+            continue
+        se = switch_edges(f, b)
+        if not se:
+            continue
+        e = prov.operand(t['discr'], 0, '%d:T' % b)
+        if _stable_cond(e):
+            conds[b] = (expr_str(e), se)
+    seen = set()
+    dq = deque([(0, frozenset())])
+    out = set()
+    while dq:
+        b, dec = dq.popleft()
+        if (b, dec) in seen or b in stop:
+            continue
+        seen.add((b, dec))
+        out.add(b)
+        if b in conds:
+            cs, (ft, tt) = conds[b]
+            known = dict(dec).get(cs)
+            for pol, tgt in ((False, ft), (True, tt)):
+                if known is None or known == pol:
+                    dq.append((tgt, dec | {(cs, pol)}))
+        else:
+            for sc in f.succs(b):
+                dq.append((sc, dec))
+    return out
+
+
+@rule('MAGIC-PREFIX', ['C05', 'C12'], floor=1)
+def magic_prefix(ctx):
+    """The LZIP member probe may call the bytes that follow a member "not a member" (= trailing data,
+    decoding ends with success) only after it has compared the bytes it actually got with the magic:
+    in every function that builds `NextMember::NoMagic`, each path from the entry to that
+    construction passes through an equality call one of whose operands derives from the constant
+    "LZIP". A path that reaches NoMagic on a short read alone accepts a stream cut inside the next
+    member's magic as complete."""
+    F = ctx.facts
+    n = 0
+    for f in F.fns:
+        targets = [bi for bi in f.reachable for st in f.blocks[bi]['stmts']
+                   if st['k'] == 'assign' and st['rv']['r'] == 'agg' and st['rv'].get('variant_name') == 'NoMagic']
+        if not targets:
+            continue
+        n += 1
+        prov = Prov(f)
+        cmp_blocks = set()
+        for bi, t, c in f.calls():
+            if not (c.trait and last_seg(c.trait) == 'PartialEq' and c.name in ('eq', 'ne')):
+                continue
+            for a in t['args'][:2]:
+                e = prov.operand(a, 0, '%d:T' % bi)
+                if any(const_bytes(x) == SPEC['lzip_magic'] for x in expr_walk(e)):
+                    cmp_blocks.add(bi)
+        key = '%s:NoMagic-only-after-comparing-the-bytes' % f.key
+        if not cmp_blocks:
+            ctx.violation(key, f.loc(targets[0]), 'builds NoMagic but never compares anything with the magic "LZIP"')
+            continue
+        free = _correlated_reach(f, prov, cmp_blocks)
+        bad = [b for b in targets if b in free]
+        if bad:
+            ctx.violation(key, f.loc(bad[0]), 'a path reaches `NoMagic` (trailing data: decoding ends with Ok) without any comparison of the bytes '
+                          'read with the magic: a stream that ends 1-3 bytes into the next member ("L", "LZ", "LZI") is accepted as complete')
+        else:
+            ctx.ok(key, f.loc(targets[0]), 'every path to NoMagic passes one of %d comparison(s) with "LZIP" (blocks %s)' % (len(cmp_blocks), sorted(cmp_blocks)))
+    if not n:
+        ctx.anchor_missing('a function that builds NextMember::NoMagic')
